@@ -99,6 +99,20 @@ func (m *Master) outcomeLocked(t *simTask, ev string) Outcome {
 	return Outcome{Kind: OK}
 }
 
+// peekOutcomeLocked is outcomeLocked without consuming a `Times` rule.
+func (m *Master) peekOutcomeLocked(t *simTask, ev string) Outcome {
+	for i := len(m.rules) - 1; i >= 0; i-- {
+		r := m.rules[i]
+		if r.left == 0 || !r.sel.matches(t) {
+			continue
+		}
+		if r.ev == ev || (r.ev == EvAny && ev != EvLaunch && ev != EvKill && ev != EvHook) {
+			return r.out
+		}
+	}
+	return Outcome{Kind: OK}
+}
+
 func decodeCommand(data []byte) *CommandInfo {
 	var c struct {
 		controlcommands.MesosCommand_Transition
